@@ -43,6 +43,9 @@ struct Case
     std::vector<PoolSpec> pools;
     std::vector<Job> jobs;
     bool focus = false;
+    // the application switches work stealing off and on again for all pools at run time (scheduler_base::remove/add_scheduler_mode):
+    // a static policy stays a static policy
+    bool toggle_stealing = false;
 };
 
 static Case decode(tape_t const& tape)
@@ -110,6 +113,7 @@ static Case decode(tape_t const& tape)
         p.dur = 2 + static_cast<int>(t.below(4));
         c.cfg.plan.push_back(p);
     }
+    c.toggle_stealing = t.chance(1, 4);
     return c;
 }
 
@@ -131,7 +135,7 @@ static std::string describe(tape_t const& tape)
     os << "], \"plan\": [";
     for (std::size_t i = 0; i < c.cfg.plan.size(); ++i)
         os << (i ? ", " : "") << "\"site" << c.cfg.plan[i].site << "/" << c.cfg.plan[i].period << "/" << (c.cfg.plan[i].action == 0 ? "spin" : c.cfg.plan[i].action == 1 ? "yield" : "sleep") << "/" << dur_ns[c.cfg.plan[i].dur] << "ns\"";
-    os << "], \"static_hint_focus\": " << (c.focus ? "true" : "false") << ", \"stealing\": " << (c.cfg.stealing ? "true" : "false") << "}";
+    os << "], \"static_hint_focus\": " << (c.focus ? "true" : "false") << ", \"stealing_mode_toggled_at_run_time\": " << (c.toggle_stealing ? "true" : "false") << ", \"stealing\": " << (c.cfg.stealing ? "true" : "false") << "}";
     return os.str();
 }
 
@@ -343,6 +347,13 @@ static Outcome run(tape_t const& tape)
             pika::stop();
             return o;
         }
+    if (c.toggle_stealing)
+        for (auto* pool : W.pools)
+        {
+            auto* sched = pool->get_scheduler();
+            sched->remove_scheduler_mode(pika::threads::scheduler_mode::enable_stealing);
+            sched->add_scheduler_mode(pika::threads::scheduler_mode::enable_stealing);
+        }
     Quiescence q;
     q.start();
     std::atomic<int> jobs_done{0};
@@ -391,6 +402,7 @@ static Outcome run(tape_t const& tape)
     out.nontrivial = (c.pools.size() >= 2 && pol.size() >= 2 && W.pool_crossings.load() >= 2) || W.hinted_static_phases.load() >= 3;
     out.tags.push_back("pools:" + std::to_string(c.pools.size()));
     if (c.focus) out.tags.push_back("template:static_hint_focus");
+    if (c.toggle_stealing) out.tags.push_back("has:stealing_mode_toggled");
     if (W.hinted_static_phases.load() >= 3) out.tags.push_back("saw:hinted_static_task_3_phases");
     if (W.pool_crossings.load() >= 2) out.tags.push_back("saw:pipeline_crossing_pools_twice");
     for (auto const& p : c.pools) out.tags.push_back(std::string("policy:") + pool_policy_names[p.policy]);
